@@ -264,8 +264,16 @@ def run_delegation_script(script, variant=0):
                 d1 = Delegation(atype=at, delegation_id="del1")
                 d1.set_details(_details(tn, "d1", variant))
                 d2 = Delegation(atype=at, delegation_id="del1", aformat=DelegationFormat.PoolReference, pool_id="pA")
-                ds.add_delegations(d1)
-                ds.add_delegations(d2)
+                d3 = Delegation(atype=at, delegation_id="del2")
+                d3.set_details(_details(tn, "d2", variant))
+                how = o.get("how", "two_calls")
+                if how == "two_calls":
+                    ds.add_delegations(d1)
+                    ds.add_delegations(d2)
+                elif how == "one_call":
+                    ds.add_delegations(d1, d2)
+                else:
+                    ds.add_delegations(d1, d3, d2)
             elif op == "DetailsOnReference":
                 d = Delegation(atype=at, delegation_id="del1", aformat=DelegationFormat.PoolReference, pool_id="pA")
                 d.set_details(_details(tn, "d1", variant))
